@@ -241,6 +241,44 @@ class Src:
         self.note(rule, 'derive(%s) removed from %s (a Clone with `ensures r == *self` is assumed instead)' % (trait, type_name))
         return self
 
+    def enum_loop(self, old_header, new_header, counter, rule='R9'):
+        """`for (i, x) in E.enumerate() { B }` -> `let mut i: usize = 0; for x in E { B i += 1; }`; B must not `continue`"""
+        k = self.s.find(old_header)
+        if k < 0 or self.s.count(old_header) != 1:
+            raise BuildError('%s: pinned loop header for %s not found exactly once: %r' % (self.path, rule, old_header))
+        b = k + len(old_header) - 1
+        if self.s[b] != '{':
+            raise BuildError('%s: loop header must end with {' % self.path)
+        e = _brace_end(self.s, b)
+        body = self.s[b:e]
+        if re.search(r'\bcontinue\b', body):
+            raise BuildError('%s: loop body contains continue; %s not applicable' % (self.path, rule))
+        self.s = self.s[:k] + new_header + self.s[b + 1:e - 1] + '    %s += 1;\n    }' % counter + self.s[e:]
+        self.note(rule, '%r -> %r + counter increment at the end of the body' % (old_header, new_header))
+        return self
+
+    def only(self, keys, why='only the items the property depends on are extracted'):
+        """keep only the top-level items with the given keys (e.g. 'fn foo', 'struct Bar') plus `use` lines"""
+        from .tree import Tree
+        t = Tree(self.s)
+        out = []
+        found = set()
+        dropped = []
+        for c in t.root.children:
+            k = c.key.split(' #')[0]
+            if k in keys or c.key.startswith('use '):
+                # include preceding doc comments: from the end of the previous item
+                out.append(self.s[(t.tok_end(c.lo - 1) if c.lo > 0 else 0):t.tok_end(c.hi - 1)])
+                found.add(k)
+            else:
+                dropped.append(c.key)
+        missing = [k for k in keys if k not in found]
+        if missing:
+            raise BuildError('%s: items not found: %s' % (self.path, missing))
+        self.s = ''.join(out) + '\n'
+        self.note('select', 'kept %s; not extracted: %s (%s)' % (sorted(found), ', '.join(dropped)[:300], why))
+        return self
+
     def text(self):
         return self.s
 
